@@ -90,6 +90,7 @@ def measure_conv(ea, eb, conv):
 
 def run_l2_conv(ctx, case):
     """case: {kind: l2_conv, conv, ea, eb, codes, expected}: the same cube pairs described in another Euler convention"""
+    core.call_guarded(disturb, case.get("disturb"))
     obs, err = core.call_guarded(measure_conv, case["ea"], case["eb"], case["conv"])
     classes = ["equal" if e["same"] else "cube" for e in case["expected"]]
     if err is not None:
@@ -101,6 +102,55 @@ def run_l2_conv(ctx, case):
         for f in ctx.failures[n0:]:
             f.signature["convention"] = case["conv"]
     ctx.ran(case)
+
+
+# ---- call-history independence: other public calls with non-default options between the measured ones -------------
+N_DISTURB = 10
+
+
+def disturb(k):
+    """One of the other public geom calls that C06 touches, with documented non-default options.  Every function of the
+    property is a function of its arguments: whatever was called before (and with which options) must not matter."""
+    if k is None:
+        return
+    from cryocat import geom
+    import random as _r
+    rng = _r.Random(k)
+    k = k % N_DISTURB
+    e1 = np.array([[rng.uniform(-180, 180), rng.uniform(0, 180), rng.uniform(-180, 180)] for _ in range(3)])
+    e2 = np.array([[rng.uniform(-180, 180), rng.uniform(0, 180), rng.uniform(-180, 180)] for _ in range(3)])
+    if k == 0:
+        geom.visualize_rotations(rot_of(e1), plot_rotations=False, radius=2.0)
+    elif k == 1:
+        geom.visualize_rotations(rot_of(e1[0]), plot_rotations=False, radius=0.5)
+    elif k == 2:
+        geom.visualize_rotations(rot_of(e1), plot_rotations=False, radius=rng.choice([3.0, 10.0, 0.25]), marker_size=5, alpha=0.5)
+    elif k == 3:
+        geom.visualize_angles(e1, plot_rotations=False)
+        geom.euler_angles_to_normals(e2)
+    elif k == 4:
+        np.random.seed(rng.randrange(2 ** 31))
+        geom.normals_to_euler_angles(np.array([[1.0, 2.0, 2.0], [0.0, 0.0, -3.0]]), output_order="zzx")
+    elif k == 5:
+        geom.angular_distance(e1, e2, c_symmetry=rng.choice([2, 3, 6]))
+        geom.cone_inplane_distance(e1, e2, c_symmetry=4)
+    elif k == 6:
+        geom.angular_distance(np.radians(e1), np.radians(e2), degrees=False)
+        geom.inplane_distance(rot_of(e1), rot_of(e2), degrees=False)
+    elif k == 7:
+        geom.angular_distance(e1, e2, convention=rng.choice(["ZYZ", "xyz", "ZXZ"]))
+        geom.cone_inplane_distance(e1, e2, convention="XYZ")
+    elif k == 8:
+        geom.compare_rotations(e1, e2, c_symmetry=2, rotation_type=rng.choice(["cone_distance", "in_plane_distance", "all"]))
+        geom.get_axis_from_rotation(rot_of(e1), axis=rng.choice(["x", "y"]))
+    else:
+        geom.visualize_rotations(rot_of(e2), plot_rotations=False, radius=rng.choice([2.0, 0.5]))
+        geom.angle_between_vectors(e1, e2)
+
+
+def pick_disturb(rng, p=0.5):
+    """None (no other call in between) or the number of a disturbance; drawn from the run's generator, stored in the case"""
+    return rng.randrange(10 ** 6) if rng.random() < p else None
 
 
 # ---- L2: pairs ---------------------------------------------------------------------------------------
@@ -182,6 +232,9 @@ def judge_pairs(ctx, obs, expected, case, pair_classes, keys=None):
 
 def run_l2_pairs(ctx, case):
     """case: {kind: l2_pair, form, ea: [[..]], eb: [[..]], codes: [[a, b], ..], expected: [..]}"""
+    _, derr = core.call_guarded(disturb, case.get("disturb"))
+    if derr is not None:
+        ctx.fail("call_raises", derr, case, {"op": "disturb%d" % (case["disturb"] % N_DISTURB), "pair": "", "nan": False})
     obs, err = core.call_guarded(measure_pairs, case["ea"], case["eb"], case["form"])
     classes = ["equal" if e["same"] else "cube" for e in case["expected"]]
     if err is not None:
@@ -386,6 +439,7 @@ def gen_conv_case(rng, idx):
 
 
 def batch_trace(case):
+    disturb(case.get("disturb"))
     ea, eb = np.asarray(case["a"], dtype=float), np.asarray(case["b"], dtype=float)
     n = ea.shape[0]
     conv = case.get("conv")
@@ -478,6 +532,14 @@ def triple_event(ea, eb, ec, form):
 
 def pairs_trace(case):
     a, b, c, q = case["a"], case["b"], case["c"], case["q"]
+    if case.get("history") is not None:
+        # the same measurement before and after another public call with non-default options
+        before = pair_event(a, b, q, case["same"])
+        disturb(case["history"])
+        after = pair_event(a, b, q, case["same"])
+        flat = lambda ev: [v for key in sorted(ev) if key not in ("kind", "same") for v in (ev[key] if isinstance(ev[key], list) else [ev[key]])]
+        return [before, after, {"kind": "history", "disturb": case["history"] % N_DISTURB, "before": flat(before), "after": flat(after)}]
+    disturb(case.get("disturb"))
     if case.get("single"):
         return [pair_event(a, b, q, case["same"])]
     return [pair_event(a, b, q, case["same"]), pair_event(b, c, q, False), pair_event(c, a, q, False),
@@ -577,6 +639,8 @@ def signature_for(case, ev, verdict):
         if cls.startswith("equal"):
             cls = "equal"
         return {"op": FIELD_OP.get(f, "angular_distance"), "pair": cls, "nan": any(v == NAN_CODE for v in vals)}
+    if ev["kind"] == "history":
+        return {"op": "disturb%d" % ev["disturb"], "pair": case.get("cls", ""), "nan": NAN_CODE in ev["after"]}
     if ev["kind"] == "batch":
         return {"op": {"ang": "angular_distance", "cone": "cone_distance", "ip": "inplane_distance"}.get(f, "distances"),
                 "convention": ev.get("conv", "zxz"), "pair": "batch%d" % ev["n"] if ev["n"] <= 8 else "batch_many", "nan": NAN_CODE in sum(ev.get(f, [[]]) if f in ("ang", "cone", "ip") else [[]], [])}
@@ -706,7 +770,7 @@ def run(ctx):
             ea = geo.euler_for_code(t["inp"]["a"], rng if r else None)
             eb = geo.euler_for_code(t["inp"]["b"], rng if r else None)
             for form in ("array", "rot"):
-                run_l2_pairs(ctx, {"kind": "l2_pair", "form": form, "ea": [ea], "eb": [eb],
+                run_l2_pairs(ctx, {"kind": "l2_pair", "form": form, "disturb": pick_disturb(rng, 0.3), "ea": [ea], "eb": [eb],
                                    "codes": [[t["inp"]["a"], t["inp"]["b"]]], "expected": [t["out"]]})
     # ... and all 576 in one call (batch semantics: one value per pair)
     for r in range(ctx.pick(2, 10)):
@@ -714,7 +778,7 @@ def run(ctx):
         rng.shuffle(order)
         sel = [pairs[i] for i in order]
         for form in ("array", "rot"):
-            run_l2_pairs(ctx, {"kind": "l2_pair", "form": form,
+            run_l2_pairs(ctx, {"kind": "l2_pair", "form": form, "disturb": pick_disturb(rng, 0.3),
                                "ea": [geo.euler_for_code(t["inp"]["a"], rng) for t in sel],
                                "eb": [geo.euler_for_code(t["inp"]["b"], rng) for t in sel],
                                "codes": [[t["inp"]["a"], t["inp"]["b"]] for t in sel],
@@ -723,7 +787,7 @@ def run(ctx):
     for n in [1, 2, 3, 4, 5, 6] * ctx.pick(3, 12) + [7, 9, 24] * ctx.pick(1, 4):
         sel = [pairs[rng.randrange(len(pairs))] for _ in range(n)]
         for form in ("array", "rot"):
-            run_l2_pairs(ctx, {"kind": "l2_pair", "form": form,
+            run_l2_pairs(ctx, {"kind": "l2_pair", "form": form, "disturb": pick_disturb(rng, 0.3),
                                "ea": [geo.euler_for_code(t["inp"]["a"], rng) for t in sel],
                                "eb": [geo.euler_for_code(t["inp"]["b"], rng) for t in sel],
                                "codes": [[t["inp"]["a"], t["inp"]["b"]] for t in sel],
@@ -735,7 +799,7 @@ def run(ctx):
         step = 6
         for k in range(0, len(order), step):
             sel = [pairs[i] for i in order[k:k + step]]
-            run_l2_conv(ctx, {"kind": "l2_conv", "conv": conv,
+            run_l2_conv(ctx, {"kind": "l2_conv", "conv": conv, "disturb": pick_disturb(rng, 0.3),
                               "ea": [conv_euler_for_code(conv, t["inp"]["a"], rng) for t in sel],
                               "eb": [conv_euler_for_code(conv, t["inp"]["b"], rng) for t in sel],
                               "codes": [[t["inp"]["a"], t["inp"]["b"]] for t in sel], "expected": [t["out"] for t in sel]})
@@ -770,6 +834,13 @@ def run(ctx):
     cases += [gen_pair_case(rng, 0, family=EDGE_FAMILIES[i % len(EDGE_FAMILIES)]) for i in range(nedge)]
     cases += [gen_batch_case(rng, 0, not ctx.quick) for _ in range(ctx.pick(120, 3000))]
     cases += [gen_conv_case(rng, 0) for _ in range(ctx.pick(250, 6000))]
+    for c in cases:
+        c["disturb"] = pick_disturb(rng, 0.4)
+    # call-history independence, measured explicitly: same pair before / after another public call with other options
+    for i in range(ctx.pick(250, 5000)):
+        c = gen_pair_case(rng, 0, family=rng.choice(["random", "random", "gimbal", "z_equal", "near", "lattice45"]))
+        c["history"] = rng.randrange(10 ** 6)
+        cases.append(c)
     for i, c in enumerate(cases):
         c["id"] = i + 1
     cases += [gen_normals_case(rng, len(cases) + i + 1, big=(not ctx.quick) or i % 10 == 0) for i in range(nnorm)]
